@@ -1,4 +1,350 @@
-//! C07 monitor (not written yet).
-use crate::ctx::Ctx;
+//! C07 — decoding quotas bound the work and never change the result.
+use super::common::*;
+use crate::conv::*;
+use crate::corpus::registry::{self as reg, DecOut};
+use crate::ctx::{catch, hex, Ctx};
+use crate::gen::types::*;
+use crate::model::wire::{decode, Decoded};
+use crate::model::*;
+use crate::rng::{hash_str, Rng};
+use candid::de::IDLDeserialize;
+use candid::types::{Type, TypeEnv};
+use candid::DecoderConfig;
+use serde_json::json;
 
-pub fn run(_ctx: &mut Ctx) {}
+const HUGE: usize = 1 << 50;
+
+fn cfg(d: Option<usize>, s: Option<usize>) -> DecoderConfig {
+    let mut c = DecoderConfig::new();
+    if let Some(d) = d {
+        c.set_decoding_quota(d);
+    }
+    if let Some(s) = s {
+        c.set_skipping_quota(s);
+    }
+    c
+}
+
+#[derive(Clone, Debug, PartialEq)]
+enum Out {
+    Ok(Vec<RValue>),
+    Quota(String),
+    Err(String),
+    Panic(String),
+}
+
+fn classify_err(e: &str) -> Out {
+    if e.contains("Decoding cost exceeds the limit") || e.contains("Skipping cost exceeds the limit") {
+        Out::Quota(if e.contains("Decoding") { "decoding".into() } else { "skipping".into() })
+    } else {
+        Out::Err(err_class_str(e))
+    }
+}
+
+fn sort_vecs(v: &RValue) -> RValue {
+    match v {
+        RValue::Vec(xs) => {
+            let mut ys: Vec<RValue> = xs.iter().map(sort_vecs).collect();
+            ys.sort_by_key(|y| y.to_string());
+            RValue::Vec(ys)
+        }
+        RValue::Opt(x) => RValue::opt(sort_vecs(x)),
+        RValue::Record(fs) => RValue::Record(fs.iter().map(|(i, x)| (*i, sort_vecs(x))).collect()),
+        RValue::Variant(i, x) => RValue::Variant(*i, Box::new(sort_vecs(x))),
+        x => x.clone(),
+    }
+}
+
+/// One decode: result, cost (decoding, skipping) when quotas were set, element-access steps.
+trait Target {
+    fn run(&self, bytes: &[u8], c: &DecoderConfig) -> (Out, Option<usize>, Option<usize>, u64);
+    fn describe(&self) -> String;
+}
+
+struct Native(usize);
+impl Target for Native {
+    fn run(&self, bytes: &[u8], c: &DecoderConfig) -> (Out, Option<usize>, Option<usize>, u64) {
+        candid::verif::reset(u64::MAX);
+        let r = reg::with(self.0, |t| t.decode(bytes, c));
+        let steps = candid::verif::steps();
+        match r {
+            DecOut::Ok { model, cost, .. } => {
+                // hash containers iterate in a per-instance order: compare them as multisets
+                let model = if self.describe().contains("Hash") { sort_vecs(&model) } else { model };
+                (Out::Ok(vec![model]), cost.decoding_quota, cost.skipping_quota, steps)
+            }
+            DecOut::Err(e) => (classify_err(&e), None, None, steps),
+            DecOut::Panic(p) => (Out::Panic(p.sig()), None, None, steps),
+        }
+    }
+    fn describe(&self) -> String {
+        reg::with(self.0, |t| t.name())
+    }
+}
+
+struct Untyped {
+    env: TypeEnv,
+    types: Vec<Type>,
+    label: String,
+}
+impl Target for Untyped {
+    fn run(&self, bytes: &[u8], c: &DecoderConfig) -> (Out, Option<usize>, Option<usize>, u64) {
+        candid::verif::reset(u64::MAX);
+        let r = catch(|| -> Result<(Vec<RValue>, DecoderConfig), String> {
+            let mut de = IDLDeserialize::new_with_config(bytes, c).map_err(|e| format!("{e:?}"))?;
+            let mut out = Vec::new();
+            for t in &self.types {
+                let v = de.get_value_with_type(&self.env, t).map_err(|e| format!("{e:?}"))?;
+                out.push(model_value(&v));
+            }
+            de.done().map_err(|e| format!("{e:?}"))?;
+            Ok((out, de.get_config().compute_cost(c)))
+        });
+        let steps = candid::verif::steps();
+        match r {
+            Err(p) => (Out::Panic(p.sig()), None, None, steps),
+            Ok(Err(e)) => (classify_err(&e), None, None, steps),
+            Ok(Ok((v, cost))) => (Out::Ok(v), cost.decoding_quota, cost.skipping_quota, steps),
+        }
+    }
+    fn describe(&self) -> String {
+        self.label.clone()
+    }
+}
+
+/// The cost model documented with `set_decoding_quota`, evaluated on the wire value.
+fn doc_cost(env: &REnv, t: &RType, v: &RValue, table_len: usize) -> u64 {
+    let t = env.unfold(t).unwrap_or(t);
+    match (t, v) {
+        (RType::Nat, RValue::Nat(n)) => crate::model::leb::encode_leb(n).len() as u64,
+        (RType::Int, RValue::Int(n)) => crate::model::leb::encode_sleb(n).len() as u64,
+        (RType::Nat8 | RType::Int8 | RType::Bool | RType::Null | RType::Reserved, _) => 1,
+        (RType::Nat16 | RType::Int16, _) => 2,
+        (RType::Nat32 | RType::Int32 | RType::Float32, _) => 4,
+        (RType::Nat64 | RType::Int64 | RType::Float64, _) => 8,
+        (RType::Text, RValue::Text(s)) => 1 + s.len() as u64,
+        (RType::Opt(_), RValue::Null) => 2,
+        (RType::Opt(u), RValue::Opt(x)) => 2 + doc_cost(env, u, x, table_len),
+        (RType::Vec(u), RValue::Vec(xs)) => 2 + 3 * xs.len() as u64 + xs.iter().map(|x| doc_cost(env, u, x, table_len)).sum::<u64>(),
+        (RType::Record(fs), RValue::Record(vs)) => {
+            2 + fs
+                .iter()
+                .zip(vs.iter())
+                .map(|((_, ft), (_, fv))| 7 + 4 + doc_cost(env, ft, fv, table_len))
+                .sum::<u64>()
+        }
+        (RType::Variant(fs), RValue::Variant(id, x)) => {
+            let ft = fs.iter().find(|f| f.0 == *id).map(|f| &f.1);
+            2 + 5 + 4 + ft.map(|ft| doc_cost(env, ft, x, table_len)).unwrap_or(0)
+        }
+        (RType::Principal, RValue::Principal(b)) => 30.max(b.len() as u64),
+        (RType::Service(_), RValue::Service(b)) => 2 + 30.max(b.len() as u64) + table_len as u64,
+        (RType::Func { .. }, RValue::Func(b, m)) => 2 + 30.max(b.len() as u64) + 1 + m.len() as u64 + table_len as u64,
+        _ => 1,
+    }
+}
+
+struct Measured {
+    cd: usize,
+    cs: usize,
+}
+
+fn judge(ctx: &mut Ctx, rng: &mut Rng, tgt: &dyn Target, bytes: &[u8], d: &Decoded, skipped_lb: u64, all_skipped: bool, fam: &str) {
+    let label = tgt.describe();
+    let input = || json!({"target": label, "bytes": hex(bytes)});
+    // unmetered reference result
+    let (r0, _, _, steps0) = tgt.run(bytes, &cfg(None, None));
+    if let Out::Panic(p) = &r0 {
+        ctx.violation(&format!("panic|{fam}|{p}"), "decode panicked", input());
+        return;
+    }
+    // huge quotas: the cost
+    let (r1, cd, cs, steps1) = tgt.run(bytes, &cfg(Some(HUGE), Some(HUGE)));
+    if r1 != r0 {
+        ctx.violation(
+            &format!("result-changes-with-quota|{fam}"),
+            &format!("unmetered: {r0:?}; with huge quotas: {r1:?}"),
+            input(),
+        );
+        return;
+    }
+    let Out::Ok(_) = &r0 else {
+        // a message that fails unmetered must fail under every quota
+        for q in [0usize, 10, 1000] {
+            let (r, ..) = tgt.run(bytes, &cfg(Some(q), Some(q)));
+            if matches!(r, Out::Ok(_)) {
+                ctx.violation(&format!("quota-makes-it-succeed|{fam}"), &format!("unmetered fails ({r0:?}) but quota {q} succeeds"), input());
+            }
+        }
+        ctx.count("cover:unmetered-fails");
+        return;
+    };
+    let (Some(cd), Some(cs)) = (cd, cs) else {
+        ctx.violation(&format!("no-cost-reported|{fam}"), "compute_cost returned None with both quotas set", input());
+        return;
+    };
+    let m = Measured { cd, cs };
+    if steps0 != steps1 {
+        ctx.violation(&format!("work-changes-with-quota|{fam}"), &format!("{steps0} element accesses unmetered, {steps1} with quotas"), input());
+    }
+    // exactness and monotonicity around the measured cost
+    let mut probes: Vec<(usize, usize, bool)> = vec![(m.cd, m.cs, true), (m.cd + 1 + rng.usize(1000), m.cs + rng.usize(1000), true)];
+    if m.cd > 0 {
+        probes.push((m.cd - 1, m.cs + 5, false));
+        probes.push((rng.usize(m.cd), HUGE, false));
+    }
+    if m.cs > 0 {
+        probes.push((m.cd + 5, m.cs - 1, false));
+        probes.push((HUGE, rng.usize(m.cs), false));
+    }
+    for _ in 0..3 {
+        let a = rng.usize(2 * m.cd + 2);
+        let b = rng.usize(2 * m.cs + 2);
+        probes.push((a, b, a >= m.cd && b >= m.cs));
+    }
+    for (a, b, want_ok) in probes {
+        let (r, cd2, cs2, _) = tgt.run(bytes, &cfg(Some(a), Some(b)));
+        match (&r, want_ok) {
+            (Out::Ok(_), true) => {
+                if r != r0 {
+                    ctx.violation(&format!("result-changes-with-quota|{fam}"), &format!("quota ({a},{b}): {r:?} vs unmetered {r0:?}"), input());
+                }
+                if cd2 != Some(m.cd) || cs2 != Some(m.cs) {
+                    ctx.violation(
+                        &format!("cost-depends-on-quota|{fam}"),
+                        &format!("cost at huge quotas ({},{}) but at ({a},{b}) it is ({cd2:?},{cs2:?})", m.cd, m.cs),
+                        input(),
+                    );
+                }
+            }
+            (Out::Quota(_), false) => {}
+            (Out::Ok(_), false) => ctx.violation(
+                &format!("not-monotone|succeeds-below-cost|{fam}"),
+                &format!("cost is ({},{}) but decoding succeeds with quotas ({a},{b})", m.cd, m.cs),
+                input(),
+            ),
+            (Out::Quota(which), true) => ctx.violation(
+                &format!("not-monotone|fails-above-cost|{fam}"),
+                &format!("cost is ({},{}) but quotas ({a},{b}) fail with the {which} quota error", m.cd, m.cs),
+                input(),
+            ),
+            (other, _) => ctx.violation(
+                &format!("result-changes-with-quota|{fam}"),
+                &format!("quota ({a},{b}): {other:?} (neither the unmetered result nor a quota error)"),
+                input(),
+            ),
+        }
+    }
+    // only one of the quotas set
+    let (r, cd3, cs3, _) = tgt.run(bytes, &cfg(Some(m.cd), None));
+    if r != r0 || cd3 != Some(m.cd) || cs3.is_some() {
+        ctx.violation(&format!("single-quota|decoding-only|{fam}"), &format!("{r:?} cost ({cd3:?},{cs3:?}), expected success with ({},None)", m.cd), input());
+    }
+    let (r, cd4, cs4, _) = tgt.run(bytes, &cfg(None, Some(m.cs)));
+    if r != r0 || cs4 != Some(m.cs) || cd4.is_some() {
+        ctx.violation(&format!("single-quota|skipping-only|{fam}"), &format!("{r:?} cost ({cd4:?},{cs4:?}), expected success with (None,{})", m.cs), input());
+    }
+    // lower bounds: every wire value node costs at least one unit; skipped nodes are charged to the skipping quota
+    let nodes: u64 = d.values.iter().map(|v| v.node_count() as u64).sum();
+    if (m.cd as u64) < nodes {
+        ctx.violation(
+            &format!("undercharged|decoding|{fam}"),
+            &format!("{nodes} wire value nodes but the decoding cost is {}", m.cd),
+            input(),
+        );
+    }
+    let skipped = if all_skipped { nodes } else { skipped_lb };
+    if (m.cs as u64) < skipped {
+        ctx.violation(
+            &format!("undercharged|skipping|{fam}"),
+            &format!("at least {skipped} wire value nodes are skipped but the skipping cost is {}", m.cs),
+            input(),
+        );
+    }
+    if steps1 > m.cd as u64 {
+        ctx.violation(
+            &format!("undercharged|steps|{fam}"),
+            &format!("{steps1} element accesses but the decoding cost is only {}", m.cd),
+            input(),
+        );
+    }
+    // upper bound against the documented model
+    let table_len = d.env.0.len();
+    let mut model: u64 = 4 * d.header_len as u64;
+    for (i, (t, v)) in d.types.iter().zip(d.values.iter()).enumerate() {
+        let c = doc_cost(&d.env, t, v, table_len);
+        // surplus arguments, untyped decoding and values read at `reserved` are skipped: 50x
+        let penal = all_skipped || (skipped_lb > 0 && i > 0) || label.contains("Reserved");
+        model += if penal { 50 * c } else { c };
+    }
+    // constant per-message overheads (a failed opt costs 10, times 50 when skipping) dominate tiny messages:
+    // the multiple is judged after an absolute allowance
+    let ratio = (m.cd as f64 - 1500.0).max(0.0) / model.max(1) as f64;
+    ctx.max(&format!("cost/documented-model:{fam}"), m.cd as f64 / model.max(1) as f64);
+    if model >= 500 {
+        ctx.max(&format!("cost/documented-model(model>=500):{fam}"), m.cd as f64 / model as f64);
+    }
+    if ratio > 10.0 {
+        ctx.violation(
+            &format!("overcharged|{fam}"),
+            &format!("decoding cost {} is {ratio:.1} times the documented model {model}", m.cd),
+            input(),
+        );
+    }
+    if nodes > 0 {
+        ctx.max(&format!("cost/node:{fam}"), m.cd as f64 / nodes as f64);
+    }
+    ctx.count(&format!("agree:{fam}"));
+}
+
+pub fn run(ctx: &mut Ctx) {
+    let n_types = reg::len();
+    // native targets: a message of T (+ surplus arguments of other types)
+    ctx.cases("native", 0.5, |ctx, rng| {
+        let i = rng.usize(n_types);
+        let fuel = *rng.pick(&[2i64, 15, 60]);
+        let surplus = rng.usize(3);
+        let mut b = candid::ser::IDLBuilder::new();
+        let mut r2 = Rng::new(rng.next());
+        if reg::with(i, |t| t.arg_into(&mut b, &mut r2, fuel)).is_err() {
+            return;
+        }
+        for _ in 0..surplus {
+            let j = rng.usize(n_types);
+            if reg::with(j, |t| t.arg_into(&mut b, &mut r2, 10)).is_err() {
+                return;
+            }
+        }
+        let Ok(bytes) = b.serialize_to_vec() else { return };
+        let Ok(d) = decode(&bytes) else {
+            ctx.count("excluded:model-cannot-read");
+            return;
+        };
+        let skipped: u64 = d.values.iter().skip(1).map(|v| v.node_count() as u64).sum();
+        let tgt = Native(i);
+        judge(ctx, rng, &tgt, &bytes, &d, skipped, false, "native");
+        let kind = reg::with(i, |t| t.kind());
+        ctx.count(&format!("cover:kind:{kind}"));
+        if surplus > 0 {
+            ctx.count("cover:surplus-arguments");
+        }
+        ctx.nontrivial(hash_str(&format!("{}|{}|{surplus}", tgt.describe(), bytes.len())));
+        ctx.sample(|| json!({"target": tgt.describe(), "bytes": hex(&bytes)}));
+    });
+    // untyped targets: wire/expected pairs incl. surplus fields, mismatched options, references
+    let tcfg = TypeCfg::default();
+    ctx.cases("untyped", 0.5, |ctx, rng| {
+        let Some(wc) = gen_wire_case(rng, &tcfg, 3, 40, true) else { return };
+        let (eenv, ets, kind) = gen_expected(rng, &tcfg, &wc);
+        let (cenv, cts) = candid_side(&eenv, &ets, None);
+        let Ok(d) = decode(&wc.bytes) else { return };
+        let tgt = Untyped {
+            env: cenv,
+            types: cts,
+            label: format!("wire [{}] {:?} at [{eenv}] {:?}", wc.env, wc.types.iter().map(|t| t.to_string()).collect::<Vec<_>>(), ets.iter().map(|t| t.to_string()).collect::<Vec<_>>()),
+        };
+        judge(ctx, rng, &tgt, &wc.bytes, &d, 0, true, "untyped");
+        ctx.count(&format!("cover:expected:{kind:?}"));
+        ctx.nontrivial(hash_str(&format!("{:?}|{:?}", wc.types.iter().map(|t| shape(&wc.env, t, 3)).collect::<Vec<_>>(), ets.iter().map(|t| shape(&eenv, t, 3)).collect::<Vec<_>>())));
+    });
+}
